@@ -726,7 +726,14 @@ func fillHashHelper(r interface{}, depth int, env *Zlisp, preferSym bool) (Sexp,
 	// check for one of our registered structs
 
 	// go through the type registry upfront
-	for hashName, factory := range GoStructRegistry.Registry {
+	// scan in registration order: a Go type registered under several names is
+	// reported under the first of them, not under whichever a map iteration
+	// meets first.
+	for _, hashName := range ListRegisteredTypes {
+		factory, isReg := GoStructRegistry.Registry[hashName]
+		if !isReg {
+			continue
+		}
 		//P("fillHashHelper is trying hashName='%s'", hashName)
 		st, err := factory.Factory(env, nil)
 		if err != nil {
